@@ -157,7 +157,9 @@ Definition mon_C07 (b : base) (te : Z * ev) : list alarm :=
       let x := inst_of b i in
       when (negb (zb fl) && io_flag x && negb (io_stopping x)) 701 ++
       when (zb fl && io_flag x) 705
-  | EDemote i gid => when (negb (io_stopping (inst_of b i)) && negb (io_stopped (inst_of b i))) 702
+  | EDemote i gid =>
+      let x := inst_of b i in
+      when (negb (io_stopping x) && negb (io_stopped x) && negb ((io_false_cause x =? sStop) || (io_false_cause x =? sStopCtx))) 702
   | EExpire key rev => when (negb (Nat.eqb (List.length (claimants b key)) 0)) 703
   | EApply op okind rev val =>
       match aget (b_pend b) op with
@@ -222,7 +224,7 @@ Record imon := mkIMon {
   m_issues_at : Z; m_issues_n : Z;
   m_gauge : Z;                 (* last value of the is-leader gauge *)
   m_last_to : Z;               (* to-state of the last recorded transition, -1 none; CANDIDATE after Start *)
-  m_stop_call : option (Z * Z * Z * bool * bool) (* t0, call, bound, delete-requested, owned-at-call *)
+  m_stop_call : option (Z * Z * Z * bool * bool * Z) (* t0, call, bound, delete-requested, owned-at-call, caller goroutine *)
 }.
 #[export] Instance eta_imon : Settable _ :=
   settable! mkIMon <m_promotes; m_demotes; m_bal; m_cb_run; m_ctxdone; m_term_ended; m_issues_at; m_issues_n; m_gauge; m_last_to; m_stop_call>.
@@ -255,10 +257,10 @@ Definition mapply (b b' : base) (m : mst) (te : Z * ev) : mst :=
   | ELog i code gid extra => if code =? 1 then mupd m i (fun x => x <| m_last_to := stCandidate |>) else m
   | EApi i call a1 a2 a3 a4 gid =>
       if call =? aStop then
-        mupd m i (fun x => x <| m_stop_call := Some (t, call, 5 * sec, false, false) |>)
+        mupd m i (fun x => x <| m_stop_call := Some (t, call, 5 * sec, false, false, gid) |>)
       else if call =? aStopCtx then
         let bound := if negb (a3 =? 0) then a3 else if 0 <? a4 then a4 else 5 * sec in
-        mupd m i (fun x => x <| m_stop_call := Some (t, call, bound, zb a1, io_flag (inst_of b i) && backed b i) |>)
+        mupd m i (fun x => x <| m_stop_call := Some (t, call, bound, zb a1, io_flag (inst_of b i) && backed b i, gid) |>)
       else m
   | EApiRet i call res err =>
       if (call =? aStop) || (call =? aStopCtx) then mupd m i (fun x => x <| m_stop_call := None |>) else m
@@ -293,11 +295,13 @@ Definition mon_C09 (b : base) (m : mst) (te : Z * ev) : list alarm :=
   | EApiRet i call res err =>
       if ((call =? aStop) || (call =? aStopCtx)) then
         match m_stop_call (mon_of m i) with
-        | Some (t0, c0, bound, del, owned) =>
+        | Some (t0, c0, bound, del, owned, g0) =>
             (* promptness: Stop within 5 s plus the demotion callback; StopWithContext within its time-out
                (measured up to the start of the record deletion and of the awaited callback) *)
             when (negb (b_ended b) && (call =? aStop) && (t0 + bound + 0 <? t - 0) && negb (ic_hasdemote (cfg_of b i))) 905 ++
             when ((res =? 0) && del && owned &&
+                  (* the deletion itself was answered by the store (no injected failure) *)
+                  match aget (b_rets b) g0 with Some r => (lr_kind r =? kDelete) && (lr_rk r <? 10) | None => true end &&
                   match live_val b (ic_key (cfg_of b i)) with
                   | Some (_, v) => sok_of b v && (sid_of b v =? i)
                   | None => false
